@@ -290,3 +290,34 @@ func Channels(n int) string {
 	}
 	return fmt.Sprint(sum, out, ok, guarded, v, more, len(freeList), cap(freeList), <-res)
 }
+
+// ---- sync.Cond and time.Sleep ------------------------------------------------
+
+func CondQueue(n int) int {
+	var mu sync.Mutex
+	cond := sync.NewCond(&mu)
+	var queue []int
+	total := 0
+	done := make(chan struct{})
+	go func() {
+		for got := 0; got < n; got++ {
+			mu.Lock()
+			for len(queue) == 0 {
+				cond.Wait()
+			}
+			total += queue[0]
+			queue = queue[1:]
+			mu.Unlock()
+		}
+		close(done)
+	}()
+	for i := 1; i <= n; i++ {
+		mu.Lock()
+		queue = append(queue, i)
+		mu.Unlock()
+		cond.Signal()
+		time.Sleep(time.Microsecond)
+	}
+	<-done
+	return total
+}
